@@ -49,6 +49,9 @@ pub struct Stats {
     pub dpq_moves: [u64; 6],
 }
 pub const SET_CAP: usize = 3_000_000;
+/// set by the driver for a shard that already aborted several times: skip the drain probe after
+/// table violations so that the shard can run to completion
+pub static NO_PROBE: std::sync::atomic::AtomicBool = std::sync::atomic::AtomicBool::new(false);
 
 impl Stats {
     pub fn ev(&mut self, k: &'static str, n: u64) {
@@ -311,10 +314,19 @@ pub fn run_history<Q: QueueApi>(
                     break;
                 }
                 if s.tables().is_err() {
-                    // the index tables are inconsistent (reported): the contents of the map are still
-                    // well defined, so keep observing what later operations return
-                    st.tables_broken = true;
-                    st.order_suspended = true;
+                    // the index tables are inconsistent (reported). Observe the consequence for
+                    // extraction once - a bounded drain against the contents of the map - and end
+                    // the episode: going on would mostly produce panics inside the crate.
+                    if !NO_PROBE.load(std::sync::atomic::Ordering::Relaxed) {
+                        if let Some(j) = cfg.journal.as_mut() {
+                            j("PROBE drain after table violation");
+                        }
+                        for v in drain_probe(&mut st, &s) {
+                            reports.push(Report { viol: v, step, history: hist.clone() });
+                        }
+                    }
+                    dead = true;
+                    break;
                 }
                 st.m = Model::from_snap(&s);
                 if matches!(reports.last().map(|r| r.viol.monitor), Some("M-ORDER") | Some("M-RET-extreme") | Some("M-DRAIN")) {
@@ -462,4 +474,52 @@ pub fn run_explicit<Q: QueueApi>(h: &History, full_every: usize, sorted_every: u
     let ops = h.ops.clone();
     let (r, _, t) = run_history::<Q>(&h.ctor, |_, _, _, step| ops.get(step).cloned(), &mut cfg, stats);
     (r, t)
+}
+
+/// After a reported table inconsistency: pop everything (bounded, every call under catch_unwind)
+/// and compare with the contents the map still holds. A pair that is not stored, a pair that is
+/// not an extreme of what remains, and elements that can no longer be extracted are consequences
+/// for C03 / C01 / C02; a panic is one for C04.
+fn drain_probe<Q: QueueApi>(st: &mut State<Q>, s: &Snap) -> Vec<Viol> {
+    let mut out: Vec<Viol> = Vec::new();
+    let kind = Q::KIND;
+    let ordp = if kind == Kind::Pq { "C01" } else { "C02" };
+    let mut m = Model::from_snap(s);
+    let bound = m.len() + 2;
+    let ends = Q::ends();
+    let mk = |monitor: &'static str, detail: String, props: Vec<&'static str>| Viol { monitor, op: "drain-after-table-violation".to_string(), kind: kind.name(), detail, props };
+    for i in 0..bound {
+        let end = ends[i % ends.len()];
+        let want = m.extreme(end);
+        let r = catch_unwind(AssertUnwindSafe(|| st.q.pop(end).map(|(it, p)| (it.id(), p.ord))));
+        match r {
+            Err(_) => {
+                let msg = take_last_panic().unwrap_or_default();
+                out.push(mk("M-PANIC", format!("panic while extracting after a table inconsistency: {}", msg), vec!["C04"]));
+                break;
+            }
+            Ok(None) => {
+                if !m.m.is_empty() {
+                    out.push(mk("M-LOST", format!("pop returns None while {} stored elements were never extracted", m.len()), vec![ordp, "C03"]));
+                }
+                break;
+            }
+            Ok(Some((id, ord))) => match m.m.remove(&id) {
+                None => {
+                    out.push(mk("M-RET", format!("pop returned item {} which is not stored (or was already extracted)", id), vec!["C03", ordp]));
+                    break;
+                }
+                Some(e) => {
+                    if e.ord != ord {
+                        out.push(mk("M-RET", format!("pop returned item {} with priority {} but it is stored with {}", id, ord, e.ord), vec!["C03"]));
+                        break;
+                    }
+                    if Some(ord) != want && !out.iter().any(|v| v.monitor == "M-RET-extreme") {
+                        out.push(mk("M-RET-extreme", format!("pop returned priority {} but the extreme of what is stored is {:?}", ord, want), vec![ordp]));
+                    }
+                }
+            },
+        }
+    }
+    out
 }
